@@ -15,7 +15,25 @@ MOD = "C10"
 
 
 class ExitTruthMonitor(solvex.Monitor):
+    def start(self, ex):
+        # count runs that end through the auto-detection test (the flag is internal: solve() turns it into a restart)
+        import dfols.controller as C
+        ex.autodetect_exits = 0
+        self.orig = C.ExitInformation.__init__
+        orig = self.orig
+
+        def init(info, flag, msg):
+            if flag == C.EXIT_AUTO_DETECT_RESTART_WARNING:
+                ex.autodetect_exits += 1
+            orig(info, flag, msg)
+        C.ExitInformation.__init__ = init
+
     def on_end(self, ex):
+        import dfols.controller as C
+        C.ExitInformation.__init__ = self.orig
+        self._on_end(ex)
+
+    def _on_end(self, ex):
         if ex.outcome != "returned":
             if ex.outcome == "raised":
                 ex.violate("returns", "solve raised %s: %s" % (type(ex.exc).__name__, ex.exc))
@@ -66,6 +84,8 @@ class ExitTruthMonitor(solvex.Monitor):
                 s.nruns, ex.soft_restarts, ex.solve_main_calls - 1))
         if s.flag == mon.SUCCESS and (s.obj is None or not np.isfinite(s.obj)):
             ex.violate("success_nonfinite", "success flag with obj=%r [%s]" % (s.obj, msg))
+        if ex.autodetect_exits:
+            ex.tags.add("autodetect_exit")
         if restarts:
             ex.tags.add("restarted")
         if ex.soft_restarts:
@@ -122,6 +142,19 @@ def _configs(tier, salts):
                                             and maxfun == 30 and mu == 2 and rs == 0.1:
                                         depth = 2
                                     out.append((cfg, {"depth": depth, "letters": LETTERS if depth < 2 else ["best", "x3", "nan"]}))
+        # auto-detected restarts (noisy objective, short history) under hard and soft restarts, every budget: the exit
+        # 'Auto-detected restart' is one more of the ~30 exit sites of the main loop
+        if salt == 0 or tier == "thorough":
+            AD = {"restarts.auto_detect.history": 3, "restarts.auto_detect.min_chgJ_slope": 0.0, "restarts.auto_detect.min_correl": 0.0}
+            for rmode in ("hard_old", "hard_new", "soft"):
+                for prob in ("rosen", "nzr"):
+                    for mu in (2, 10):
+                        for maxfun in range(4, 90 if tier == "quick" else 160, 1 if mu == 10 else 3):
+                            up = dict(cfgs.RESTART_MODES[rmode], **AD)
+                            up["restarts.max_unsuccessful_restarts"] = mu
+                            cfg = cfgs.base_cfg(prob, salt, npt=3, rhobeg=0.3, rhoend=1e-3, maxfun=maxfun, memo=False, noise_amp=0.3,
+                                                objfun_has_noise=True, user_params=cfgs.user_params(3, up), tag_restart=rmode + "_autodetect")
+                            out.append((cfg, {"depth": 0}))
         # an objective that is non-finite at EVERY evaluation (one more way a run can end)
         if salt == 0:
             for rmode in ("none", "soft", "hard_old", "hard_new"):
@@ -143,7 +176,7 @@ def run(report, tier, seed):
     tags = res["tags"]
     cov = report.coverage
     msgs = sorted(t for t in tags if t.startswith("msg:"))
-    need = ["msg:Objective is sufficiently small", "msg:rho has reached rhoend", "msg:Objective has been called MAXFUN times",
+    need = ["autodetect_exit", "msg:Objective is sufficiently small", "msg:rho has reached rhoend", "msg:Objective has been called MAXFUN times",
             "msg:Reached maximum number of unsuccessful restar", "soft_restarted", "hard_restarted"]
     missing = [t for t in need if not tags.get(t)]
     if missing:
